@@ -114,6 +114,18 @@ func TestNumLike(t *testing.T) {
 	fmt.Printf("NumLike %v %v V=%q W=%q Z=%q P=%q\n", err, p, tt.V, tt.W, tt.Z, tt.P.Version)
 }
 
+// K1, literal and expression facets: a literal / an expression result that looks like a number is re-typed.
+func TestNumLikeLiteralAndExpression(t *testing.T) {
+	type T struct {
+		L string `value:"1.10"`
+		M string `value:"007"`
+		E string `value:"#{'00' + '7'}"`
+	}
+	tt := &T{}
+	_, err, p := run(app.SetComponents(tt))
+	fmt.Printf("NumLikeLiteralAndExpression %v %v L=%q M=%q E=%q\n", err, p, tt.L, tt.M, tt.E)
+}
+
 func TestHang(t *testing.T) {
 	type T struct {
 		V string `value:"${a}"`
